@@ -6,18 +6,25 @@ import "github.com/ohler55/slip"
 
 // Quote represents a list.
 type Quote struct {
-	child Node
-	wide  int
-	x     int
+	child  Node
+	prefix string
+	wide   int
+	x      int
 }
 
 func newQuote(obj slip.Object, p *slip.Printer) Node {
-	return &Quote{child: buildQNode(obj, p)}
+	return &Quote{child: buildQNode(obj, p), prefix: "'"}
+}
+
+// newPrefixed is for the other reader macros such as backquote. What follows
+// the prefix is laid out as data, a comma in it is written with its own prefix.
+func newPrefixed(prefix string, obj slip.Object, p *slip.Printer) Node {
+	return &Quote{child: buildQNode(obj, p), prefix: prefix}
 }
 
 func (q *Quote) layout(left int) (w int) {
 	q.x = left
-	w = q.child.layout(left+1) + 1
+	w = q.child.layout(left+len(q.prefix)) + len(q.prefix)
 	q.wide = w
 
 	return
@@ -25,13 +32,13 @@ func (q *Quote) layout(left int) (w int) {
 
 func (q *Quote) reorg(edge int) int {
 	if edge < q.right() {
-		q.wide = q.child.reorg(edge) + 1
+		q.wide = q.child.reorg(edge) + len(q.prefix)
 	}
 	return q.wide
 }
 
 func (q *Quote) adjoin(b []byte) []byte {
-	b = append(b, '\'')
+	b = append(b, q.prefix...)
 	return q.child.adjoin(b)
 }
 
